@@ -2,6 +2,8 @@ import GoNfsd.Driver.Mkfs
 import GoNfsd.Driver.Xdr
 import GoNfsd.Driver.Fs
 import GoNfsd.Driver.Codec
+import GoNfsd.Driver.Kvs
+import GoNfsd.Driver.Simple
 
 def main (args : List String) : IO UInt32 :=
   match args with
@@ -9,6 +11,8 @@ def main (args : List String) : IO UInt32 :=
   | ["xdr"] => GoNfsd.Driver.Xdr.main
   | ["fs"] => GoNfsd.Driver.Fs.main
   | ["codec"] => GoNfsd.Driver.Codec.main
+  | ["kvs"] => GoNfsd.Driver.Kvs.main
+  | ["simple"] => GoNfsd.Driver.Simple.main
   | _ => do
     IO.eprintln "usage: drv <mkfs>"
     return 2
